@@ -154,6 +154,18 @@ class Body:
             if not d["p"]["proj"]:
                 self.names.setdefault(d["p"]["l"], d["name"])
         self._cfg = None
+        # A parameter that was merely RENAMED keeps, for the rules, the name it has in the reference tree (same function,
+        # same number of parameters, and the current names are not a permutation of the reference names -- a reordering
+        # keeps its own names).  Rules that pick a parameter by name then survive `timestamp` -> `wake_at`.
+        if self.kind in ("Fn", "AssocFn") and not os.environ.get("VERIF_NO_RELOCATE"):
+            ref = ref_items(facts.crate, facts.config) if facts is not None and hasattr(facts, "crate") else None
+            rp = (ref or {}).get("params", {}).get(self.npath)
+            if rp and len(rp) == self.argc:
+                cur = [self.names.get(i, "_%d" % i) for i in range(1, self.argc + 1)]
+                if cur != rp and sorted(cur) != sorted(rp):
+                    for i, nm in enumerate(rp, start=1):
+                        if not nm.startswith("_") or nm == "_":
+                            self.names[i] = nm
         # captured variables of closures: debug entries whose place is a field of the environment `_1`
         self.upvars = {}
         for d in raw["debug"]:
